@@ -109,6 +109,22 @@ def run(ctx):
             ctx.ob('C24-D2', e, 'reaches a writer of thread-local SETTINGS', 'never', False,
                    detail='call path: ' + ' -> '.join(x.split('::')[-1] for x in prog.path_to(parent, w)), site=loc(prog.bodies[e]['span']))
     ctx.ob('C24-D2', '-', 'new-API entry points reaching SETTINGS writers', '0 of %d' % len(entries), bad == 0, detail='%d entry points' % bad)
+    # readers: who-may-call table of the thread-local getters. Besides the deprecated context-less constructors (and their
+    # async coroutines), only the tabled functions may read the calling thread's legacy settings.
+    READER_ALLOWED = {
+        'store::Store::from_jumbf': 'legacy loader used by BmffIO update-manifest handling; reads only core.max_decompressed_manifest_size_in_mb',
+        'settings::signer::SignerSettings::signer': 'legacy Settings::signer() accessor (deprecated API surface)',
+    }
+    nrd = 0
+    for r in sorted(readers):
+        for c in sorted(prog.rcg.get(r, ())):
+            nrd += 1
+            base = re.sub(r'(::\{closure#\d+\})+$', '', c)
+            dep = bool(prog.bodies.get(c, {}).get('deprecated') or prog.bodies.get(base, {}).get('deprecated') or prog.bodies.get(base[:-6] if base.endswith('_async') else base, {}).get('deprecated'))
+            why = 'deprecated context-less API' if dep else READER_ALLOWED.get(base)
+            ctx.ob('C24-D2', c, 'reads the legacy thread-local SETTINGS via ' + r.split('::')[-1], 'deprecated API or tabled reader', why is not None,
+                   detail=('allowed: ' + why) if why else 'a non-deprecated code path takes settings from the calling thread instead of its Context: results depend on legacy per-thread state', site=loc(prog.bodies[c]['span']))
+    ctx.floor('direct callers of thread-local settings getters', nrd, 10, rule='C24-D2')
     # ---- D3 per-context cancellation
     cadt = prog.adts.get('context::Context')
     if ctx.require(cadt is not None, 'context::Context (adt)'):
